@@ -63,6 +63,7 @@ def st_history():
         st.tuples(st.just('report'), st.sampled_from(ACTIONS[:5])).map(list),
         st.tuples(st.just('report'), st.sampled_from(ACTIONS[:5])).map(list),
         st.tuples(st.just('report'), st.sampled_from(ACTIONS[:5])).map(list),
+        st.tuples(st.just('report_unsub'), st.sampled_from(ACTIONS[:3]), st.integers(0, 3)).map(list),
         st.tuples(st.just('advance'), st.sampled_from([0.5, 1, 2, 5, 9, 11, 31])).map(list),
         st.tuples(st.just('tick')).map(list),
         st.tuples(st.just('set_fault'), sub, st.sampled_from(['http500', 'http404', 'refused', 'timeout'])).map(list),
@@ -436,6 +437,68 @@ class Runner:
         if posts:
             self.findings.append((f'{P}/unannounced-notification/{self.variant}',
                                   f'{step}: posts {[(e.path, e.action) for e in posts][:3]} without sent_to_subscribers'))
+
+    def step_report_unsub(self, step):
+        """A report is being delivered; while the first subscriber is served, subscriber j unsubscribes (its request is
+        answered by another thread of the HTTP server in real life).  Whatever is sent to j after its Unsubscribe was
+        answered violates 'at send time ... has not been unsubscribed'.  (synchronous managers only: they serve the
+        subscribers one after the other in the committing thread)"""
+        from sdc11073 import observableproperties as properties
+        _, name, j = step
+        if not self.variant.startswith('sync'):
+            return self.step_report(['report', name])
+        live = [s_ for s_ in self.slots.values() if s_ is not None and s_.accepted and not s_.unsubscribed and not s_.ended
+                and not s_.purged]
+        if len(live) < 2:  # noqa: PLR2004
+            return self.step_report(['report', name])
+        target = live[j % len(live)]
+        log0 = len(L.NET.log)
+        now = self.vt.monotonic()
+        emitted = []
+        cb = lambda value: emitted.append(value[0]) if value is not None else None  # noqa: E731
+        state = {'fired': False, 'answered_at': None}
+
+        def during_delivery(entry):
+            if state['fired'] or entry.netloc != self.server.netloc or not entry.action or 'SubscriptionEnd' in entry.action:
+                return
+            if entry.path.strip('/').split('/')[0] == target.key:
+                return  # (the target itself is being served: wait for another subscriber's turn)
+            state['fired'] = True
+            L.NET.pre_handle = None
+            self.step_unsubscribe(['unsubscribe', target.idx])
+            state['answered_at'] = len(L.NET.log)
+        expected_before = {s_.key for s_ in live if s_.failures < self.limit and now < s_.expiry - 0.011}
+        properties.strongbind(self.mgr, sent_to_subscribers=cb)
+        L.NET.pre_handle = during_delivery
+        try:
+            self._commit(name)
+        except Exception as ex:  # noqa: BLE001
+            if not R.exc_in_library(ex):
+                raise
+            self.findings.append((f'{P}/commit-raises/{R.exc_sig(ex)}', f'{step}: {type(ex).__name__}: {ex}'[:300]))
+            return None
+        finally:
+            L.NET.pre_handle = None
+            properties.unbind(self.mgr, sent_to_subscribers=cb)
+        if state['answered_at'] is not None and target.unsubscribed:
+            late = [e for e in L.NET.log[state['answered_at']:] if e.netloc == self.server.netloc and e.action in emitted
+                    and e.path.strip('/').split('/')[0] == target.key]
+            if late:
+                self.nontrivial = True
+                self.findings.append((f'{P}/notified-although-unsubscribed/during-send/{self.variant}',
+                                      f'{step}: {target.key} unsubscribed while another subscriber was being served and was '
+                                      f'sent {late[0].action.split("/")[-1]} after its Unsubscribe had been answered'))
+        # bookkeeping of delivery failures as in step_report
+        for uri in emitted:
+            attempted = {e.path.strip('/').split('/')[0] for e in L.NET.log[log0:] if e.netloc == self.server.netloc
+                         and e.action == uri}
+            for sub in self.all_subs:
+                if sub.key in attempted and self.faults.get(sub.key):
+                    sub.failures += 1
+                elif sub.key in attempted:
+                    sub.failures = 0
+        _ = expected_before
+        return None
 
     def step_advance(self, step):
         self.vt.advance(step[1])
